@@ -289,6 +289,10 @@ func (x *Exec) run(lines []string) {
 		if k := strings.Index(cls, " "); k > 0 {
 			cls = cls[:k]
 		}
+		// C10: begin-block processing of the custom modules must never panic (a panic halts the chain)
+		if cls == "panic" && len(toks) > 0 && (toks[0] == "m.block" || toks[0] == "d.bb" || toks[0] == "a.block") {
+			x.hit("C10", "beginblock-panic", toks[0], "BeginBlocker panicked: "+lastNote(x))
+		}
 		if len(toks) > 0 {
 			x.cover(toks[0] + "/" + cls)
 		}
@@ -379,4 +383,11 @@ func opTimeout() time.Duration {
 		}
 	}
 	return 20 * time.Second
+}
+
+func lastNote(x *Exec) string {
+	if len(x.notes) == 0 {
+		return ""
+	}
+	return x.notes[len(x.notes)-1]
 }
